@@ -77,7 +77,7 @@ def enum_jobs(tier):
 def sys_jobs(hs, tier):
     sj = [wmmlib.sys_job(hs, "sysbd", 0, 2, "l1,l2,l3,l4,l5"), wmmlib.sys_job(hs, "sysbd", 0, 3, "l1,l2,l3,l4,x")]
     if tier != "quick":
-        sj += [wmmlib.sys_job(hs, "sysbd", 0, 3, "l1,l2,l3,l4,l5,l6", deadline=1500), wmmlib.sys_job(hs, "sysbd", 1, 1, "l1,l2,l3,l4", "l1,l2,l3,l4", deadline=1500)]
+        sj += [wmmlib.sys_job(hs, "sysbd", 0, 3, "l1,l2,l3,l4,l5,l6", deadline=1500), wmmlib.sys_job(hs, "sysbd", 1, 1, "l1,l2,l3,l4", "l1,l2", deadline=1500)]
     return sj
 
 
